@@ -130,20 +130,26 @@ def _layout_jobs(tier, seed):
     jobs = []
     for (L, W) in SHAPES:
         t = L * W
-        if tier == "quick" and t > 2:
+        if tier == "quick" and t > 3:
             continue
         if t <= 2:
             jobs.append(dict(L=L, W=W, first=None, _cost=8 ** t))
         else:
             for first in range(8):
-                for second in (range(8) if t == 4 else [None]):
+                for second in (range(8) if t == 4 and tier != "quick" else [None]):
                     jobs.append(dict(L=L, W=W, first=first, second=second, _cost=8 ** (t - 1), _timeout_s=2400))
     if tier == "quick":
-        # 3-tile boards: all arrow layouts with the loose flags tied to the arrows' parity (all 8^3 in the thorough tier)
-        for (L, W) in ((1, 3), (3, 1)):
+        # 4-tile boards: all arrow layouts with the loose flags tied to the arrows' parity (all 8^4 in the thorough tier)
+        for (L, W) in ((1, 4), (4, 1), (2, 2)):
             for first in range(8):
-                jobs.append(dict(L=L, W=W, first=first, tied_loose=True, _cost=16))
+                if first // 4 == (first % 4) % 2:
+                    jobs.append(dict(L=L, W=W, first=first, tied_loose=True, _cost=64))
     else:
+        # 5-tile boards, every layout (beyond the property's exhaustive bound)
+        for (L, W) in ((1, 5), (5, 1)):
+            for first in range(8):
+                for second in range(8):
+                    jobs.append(dict(L=L, W=W, first=first, second=second, _cost=512, _timeout_s=2400))
         # 6-tile boards (beyond the property's exhaustive bound): all arrow layouts, loose flags tied to the arrows' parity
         for (L, W) in ((2, 3), (3, 2)):
             for first in range(8):
@@ -178,8 +184,8 @@ def _board(sp, L, W, first, second, tied_loose=False):
          covers=["width1", "length1", "arrow3", "loose", "game_a", "game_b", "game_c"],
          stubs=["open -> in-memory file shared by writer and reader", "int -> identity on symbolic ints",
                 "repr of a symbolic number -> identifier resolved in the reader's namespace"],
-         bounds="every board shape with <= 4 tiles (quick: <= 2 tiles plus 3-tile boards with loose flags tied to arrows; thorough adds "
-                "2x3 and 3x2 boards with all arrow layouts and tied loose flags), every "
+         bounds="every board shape with <= 4 tiles (quick: <= 3 tiles plus 4-tile boards with loose flags tied to arrows; thorough adds "
+                "1x5 / 5x1 boards exhaustively and 2x3 / 3x2 boards with all arrow layouts and tied loose flags), every "
                 "arrow/loose layout, all rewards >= 0 (symbolic integers), all three break probabilities in (0,1) (symbolic reals)",
          desc="real write_robots -> text -> real read_dict_from_file: exactly game_a, game_b, game_c; each is, from state 0, "
               "isomorphic (owners, rewards, finals, action labels, probabilities) to the reference Roborta game of the board; "
@@ -235,7 +241,7 @@ def gen_layout(sp, L, W, first=None, second=None, tied_loose=False):
                 for lab, _ in tr:
                     sp.prove(isinstance(lab, str) and not any(x in lab for x in ("[[", "], ", "[(", "\n'")),
                              "game %s: label %r could be corrupted by the text formatting" % (variant, lab))
-        sg = std.tad.StochasticGame(prune_states=True, **g)
+        sg = tad_merged().StochasticGame(prune_states=True, **g)     # (merging min/max: no fork on the order of symbolic rewards)
         sg.check_game()
         sl = sg.init_states()
         sp.prove(len(sl) == n, "game %s: init_states built %d of %d states" % (variant, len(sl), n))
